@@ -83,7 +83,7 @@ def run_verus_unit(u, repo, bdir):
             return res
         tpl = os.path.join(bdir, uid + ".template.rs")
         open(tpl, "w").write(t)
-    p = subprocess.run([VX, "gen", "--repo", repo, "--template", tpl, "--out", gen,
+    p = subprocess.run([VX, "gen", "--repo", repo, "--root", ROOT, "--template", tpl, "--out", gen,
                         "--report", rep], capture_output=True, text=True)
     report = {}
     if os.path.exists(rep):
